@@ -65,10 +65,15 @@ func limitsProfile() *harness.Profile {
 func limitsReserveProfile() *harness.Profile {
 	p := limitsProfile()
 	p.Name = "limits-reserve"
-	p.Weights = harness.With(harness.BaseWeights(), map[string]int{harness.OpAddAsk: 22, harness.OpAddApp: 8, harness.OpRelease: 9, harness.OpUpdNode: 4, harness.OpAddNode: 5, harness.OpReload: 0,
-		harness.OpForeign: 1, harness.OpSetPred: 3})
-	p.NodeLo, p.NodeHi, p.AskLo, p.AskHi = 4, 10, 2, 8
-	p.OldAskProb, p.GangProb, p.ReqNodeProb = 80, 10, 5
+	p.Conf = harness.ConfOpts{MaxDepth: 2, Limits: true, Quotas: true, TightLimits: true, FifoOnly: true}
+	// few and small nodes, asks of 40-100 % of a node: most asks have to wait for space and reserve a node; releases free
+	// space on other nodes so that reserved asks are placed elsewhere while other applications of the user go on allocating
+	p.Weights = harness.With(harness.BaseWeights(), map[string]int{harness.OpAddAsk: 24, harness.OpAddApp: 8, harness.OpRelease: 14, harness.OpUpdNode: 5, harness.OpAddNode: 6, harness.OpReload: 0,
+		harness.OpForeign: 1, harness.OpSetPred: 3, harness.OpDecomNode: 0, harness.OpDrainNode: 1, harness.OpUndrainNode: 1})
+	p.NodeLo, p.NodeHi, p.AskLo, p.AskHi = 6, 10, 3, 9
+	p.OldAskProb, p.GangProb, p.ReqNodeProb = 90, 5, 5
+	p.FragAskProb = 35
+	p.MinSteps, p.MaxSteps = 25, 90
 	p.UserPool = []string{"u1", "u3"} // few users: several applications compete for one user's (and group g1's) quota
 	return p
 }
